@@ -19,10 +19,13 @@ theorem C19_walk (c : Ctx) (hplain : c.cfg.enc = none) (hfull : c.cfg.re = none)
   ((Ctx.run_rel c hfull c.FixRel c.fixSim s v (c.run s v)
       (Ctx.relAt_self_run c hplain hrfn hns hrepl hph s v hs hn)).1).symm
 
-theorem zoneState_ok (hi : Bool) (k : Str) : Ctx.St.ok (Ctx.zoneState hi k) = true := by
+theorem zoneState_ok (hi hb : Bool) (k : Str) : Ctx.St.ok (Ctx.zoneState hi hb k) = true := by
   unfold Ctx.zoneState
-  repeat' split
-  all_goals rfl
+  split
+  · rfl
+  · split
+    · rfl
+    · exact Ctx.opZone_ok hi k
 
 /-- command documents -/
 theorem cmdDocA_idem (c : Ctx) (hplain : c.cfg.enc = none) (hfull : c.cfg.re = none) (hrfn : c.rfn = false)
@@ -32,15 +35,17 @@ theorem cmdDocA_idem (c : Ctx) (hplain : c.cfg.enc = none) (hfull : c.cfg.re = n
   | obj cmd =>
     simp only [J.nodup, Bool.and_eq_true] at hn
     have e : ∀ l : List (Str × J), c.redactCommandA l =
-        mapVals (fun k v => c.run (Ctx.zoneState (lookup sInsert l).isSome k) v) l := fun l => rfl
+        mapVals (fun k v => c.run (Ctx.zoneState (lookup sInsert l).isSome (lookup sBulkWrite l).isSome k) v) l := fun l => rfl
     have hi : (lookup sInsert (c.redactCommandA cmd)).isSome = (lookup sInsert cmd).isSome := by
       rw [e, lookup_mapVals]; cases lookup sInsert cmd <;> rfl
+    have hb : (lookup sBulkWrite (c.redactCommandA cmd)).isSome = (lookup sBulkWrite cmd).isSome := by
+      rw [e, lookup_mapVals]; cases lookup sBulkWrite cmd <;> rfl
     simp only [Ctx.cmdDocA, hns, Bool.false_eq_true, if_false, J.obj.injEq]
-    conv => lhs; rw [e (c.redactCommandA cmd), hi, e cmd, mapVals_mapVals]
+    conv => lhs; rw [e (c.redactCommandA cmd), hi, hb, e cmd, mapVals_mapVals]
     rw [e cmd]
     apply mapVals_congr _ _ cmd hn.2
     intro k x hx
-    exact C19_walk c hplain hfull hrfn hns hrepl hph _ (zoneState_ok _ k) x hx
+    exact C19_walk c hplain hfull hrfn hns hrepl hph _ (zoneState_ok _ _ k) x hx
   | _ => rfl
 
 theorem sRemote_not_cmd : cmdKeys.contains sRemote = false := by decide
